@@ -45,6 +45,19 @@ impl Clone for ScopeStack {
     #[verifier::external_body]
     fn clone(&self) -> (r: Self) ensures r.world() == self.world() { unimplemented!() }
 }
+// scope.rs's two writers (under contract in unit V-name): here only their signature and an uninterpreted effect on the world
+pub uninterp spec fn sem_scope_declare(w: W, name: Seq<char>, loc: (usize, usize), v: SourcedValue) -> (std::result::Result<(), (usize, usize)>, W);
+pub uninterp spec fn sem_scope_assign(w: W, name: Seq<char>, v: SourcedValue) -> (bool, W);
+impl ScopeStack {
+    #[verifier::external_body]
+    pub fn declare(&mut self, name: &str, loc: (usize, usize), v: SourcedValue) -> (r: std::result::Result<(), (usize, usize)>)
+        ensures (r, final(self).world()) == sem_scope_declare(old(self).world(), name@, loc, v)
+    { unimplemented!() }
+    #[verifier::external_body]
+    pub fn assign(&mut self, name: &str, v: SourcedValue) -> (r: bool)
+        ensures (r, final(self).world()) == sem_scope_assign(old(self).world(), name@, v)
+    { unimplemented!() }
+}
 """
 
 OPAQUE_VALUE = r"""
